@@ -15,8 +15,11 @@ R2 decl-partition  in gen_decls every symbol leaves the worklist exactly when
 R3 scope-merge     routine_node merges every inner schedule's table through
                    SymbolTable.merge (renaming clashes, see C16) before it
                    declares anything.
+R4 inlined-bounds expressions taken from the callee's declarations by
+                   InlineTrans are rewritten in terms of the caller (they are
+                   not: known findings C04-a, C04-b).
 That every name *referenced* by the statements is in a table, and symbols
-added by transformations, are not decided.
+added by other transformations, are not decided.
 """
 import ast
 from sa.index import AnalysisError, loc, norm
@@ -108,18 +111,76 @@ def check_params(idx, run):
     txt = " ".join(ast.unparse(func).split())
     sources = {
         "initial value": "get_input_parameters(read_write_info, "
-                         "symbol.initial_value)",
+                         "symbol.initial_value",
         "precision of literals in the initial value":
             "for lit in symbol.initial_value.walk(Literal)",
         "declared precision":
             "isinstance(symbol.datatype.precision, DataSymbol)",
         "array bounds": "symbol.datatype.shape",
     }
+    calls = [c for c in ast.walk(func) if isinstance(c, ast.Call) and
+             ast.unparse(c.func).endswith("get_input_parameters") and
+             len(c.args) > 1 and
+             ast.unparse(c.args[1]) == "symbol.initial_value"]
+    shape_reads = bool(calls) and all(any(
+        k.arg == "options" and "'COLLECT-ARRAY-SHAPE-READS': True" in
+        ast.unparse(k.value) for k in c.keywords) for c in calls)
+    run.check("C04.R1", shape_reads, cons,
+              "dependencies from arrays used in inquiry functions",
+              "the inputs of an initial value are collected without "
+              "array-shape reads: `integer, parameter :: n = SIZE(a)` can "
+              "be written before the declaration of the constant array a",
+              loc(mod, func))
+    sources = dict(sources)
     for what, frag in sources.items():
         run.check("C04.R1", frag in txt, cons, f"dependencies from {what}",
                   f"the {what} is no longer a source of declaration "
                   f"dependencies: e.g. `real(kind=wp), parameter :: x` "
                   f"could be written before `wp`", loc(mod, func))
+    # each source may only be guarded by the test that makes it applicable
+    ALLOWED_GUARDS = {
+        "isinstance(lit.datatype.precision, DataSymbol)",
+        "isinstance(symbol.datatype.precision, DataSymbol)",
+        "isinstance(symbol.datatype, ArrayType)",
+        "isinstance(dim, ArrayType.ArrayBounds)",
+    }
+    dep_loops = [s for s in func.body if isinstance(s, ast.For) and
+                 ast.unparse(s.iter) == "local_constants"]
+    if len(dep_loops) != 1:
+        raise AnalysisError("_gen_parameter_decls: the loop collecting the "
+                            "dependencies was not found")
+    nsrc = 0
+
+    def visit(stmts, guards):
+        nonlocal nsrc
+        for stmt in stmts:
+            if isinstance(stmt, ast.If):
+                test = stmt.test
+                parts = test.values if isinstance(test, ast.BoolOp) and \
+                    isinstance(test.op, ast.And) else [test]
+                gtxt = [" ".join(ast.unparse(p).split()) for p in parts]
+                visit(stmt.body, guards + gtxt)
+                visit(stmt.orelse, guards + [f"not ({' and '.join(gtxt)})"])
+            elif isinstance(stmt, ast.For):
+                visit(stmt.body, guards)
+            else:
+                stxt = " ".join(ast.unparse(stmt).split())
+                if "read_write_info.add_read(" in stxt or \
+                        "get_input_parameters(read_write_info" in stxt:
+                    nsrc += 1
+                    extra = [g for g in guards if g not in ALLOWED_GUARDS]
+                    run.check(
+                        "C04.R1", not extra, cons,
+                        f"dependency source not restricted "
+                        f"({stxt[:60]})",
+                        f"the dependency source '{stxt[:80]}' is only "
+                        f"consulted when {extra}: for other constants "
+                        f"(e.g. a constant array with a kind parameter) the "
+                        f"dependency is lost and the constant can be "
+                        f"declared before the symbol it needs",
+                        loc(mod, stmt))
+    visit(dep_loops[0].body, [])
+    run.floor("dependency sources", nsrc, 4)
     run.check("C04.R1", "in local_constants" in txt and
               "decln_inputs[symbol.name].add(sig)" in txt, cons,
               "only local constants are ordering constraints",
@@ -299,10 +360,103 @@ def check_scope_merge(idx, run):
                   loc(mod, func))
 
 
+def check_rename_guard(idx, run):
+    """C04.R3: a symbol that is named inside a CodeBlock cannot be renamed
+    (the text of the code block would keep the old name and resolve to
+    whatever else is called that).  Symbol names are case-insensitive, code
+    blocks keep the spelling of the source: the comparison has to normalise."""
+    tcls = idx.get_class("psyclone.psyir.symbols.symbol_table.SymbolTable")
+    func = tcls.methods.get("rename_symbol")
+    if func is None:
+        raise AnalysisError("SymbolTable.rename_symbol not found")
+    mod = tcls.module
+    loops = [s for s in ast.walk(func) if isinstance(s, ast.For) and
+             "CodeBlock" in " ".join(ast.unparse(x) for x in ast.walk(func)
+                                     if isinstance(x, ast.Assign) and
+                                     ast.unparse(x.targets[0]) ==
+                                     ast.unparse(s.iter))
+             or isinstance(s, ast.For) and "walk(CodeBlock)" in
+             ast.unparse(s.iter)]
+    guards = []
+    for loop in loops:
+        for st in ast.walk(loop):
+            if isinstance(st, ast.If) and any(
+                    isinstance(b, ast.Raise) for b in ast.walk(st)) and \
+                    isinstance(st.test, ast.Compare):
+                guards.append((loop, st))
+    run.check("C04.R3", bool(guards), "SymbolTable.rename_symbol",
+              "a symbol named in a code block is not renamed",
+              "rename_symbol no longer refuses to rename a symbol that "
+              "occurs in a CodeBlock", loc(mod, func))
+    for loop, st in guards:
+        names = {n.id for n in ast.walk(st.test) if isinstance(n, ast.Name)}
+        expanded = ast.unparse(st.test)
+        for sub in ast.walk(func):
+            if isinstance(sub, ast.Assign) and isinstance(
+                    sub.targets[0], ast.Name) and sub.targets[0].id in names:
+                expanded += " ; " + ast.unparse(sub.value)
+        sides = expanded.count("_normalize(") + expanded.count(".lower()")
+        run.check(
+            "C04.R3", "get_symbol_names()" in expanded and sides >= 2,
+            "SymbolTable.rename_symbol",
+            "code-block names compared case-insensitively",
+            f"the code-block guard '{ast.unparse(st.test)}' does not "
+            f"normalise both the symbol's name and the names found in the "
+            f"code block: `WRITE(*,*) Total` keeps referring to 'total' "
+            f"after the local `total` was renamed to make room for an "
+            f"inlined or merged symbol of that name (captured reference)",
+            loc(mod, st))
+
+
+def check_inlined_bounds(idx, run):
+    """C04.R4: after inlining, every name the caller's routine references
+    must be declared there.  The callee's formal arguments disappear, so
+    each expression taken over from the callee - statements, but also the
+    array bounds in the declarations of its locals and of its array
+    arguments - has to go through the formal -> actual substitution."""
+    cls = idx.get_class("InlineTrans")
+    mod = cls.module
+    app = cls.methods["apply"]
+    atxt = " ".join(ast.unparse(app).split())
+    # (a) declarations of the callee's locals that are merged into the caller
+    touches_types = any(f in atxt for f in (
+        ".datatype", ".shape", "ArrayBounds", "replace_symbols_using",
+        "_replace_formal_args_in_types"))
+    run.check(
+        "C04.R4", touches_types, "InlineTrans.apply",
+        "bounds of the callee's local arrays are rewritten in terms of the "
+        "caller",
+        "apply() substitutes the formal arguments only in the References "
+        "found in the callee's *statements*; the datatypes of the symbols it "
+        "merges into the caller are taken over as they are: a local "
+        "`real :: tmp(n)` of `sub(x, n)` becomes `real, dimension(n) :: tmp` "
+        "in the caller, where no `n` is declared", loc(mod, app))
+    # (b) explicit bounds copied from the declaration of a formal array
+    upd = cls.methods.get("_update_actual_indices")
+    if upd is None:
+        raise AnalysisError("InlineTrans._update_actual_indices not found")
+    copies = [c for c in ast.walk(upd) if isinstance(c, ast.Call) and
+              isinstance(c.func, ast.Attribute) and c.func.attr == "copy" and
+              "local_shape" in ast.unparse(c.func.value)]
+    utxt = " ".join(ast.unparse(upd).split())
+    substituted = "_replace_formal_arg(" in utxt or "walk(Reference)" in utxt
+    run.check(
+        "C04.R4", not copies or substituted,
+        "InlineTrans._update_actual_indices",
+        "declared bounds of a formal array are substituted before use",
+        f"{len(copies)} bound expression(s) of the formal argument's "
+        f"declaration are copied into the caller without replacing the "
+        f"formal arguments they mention: `x(:)` with `real :: x(n)` becomes "
+        f"`a(:n)` in the caller, where `n` does not exist",
+        loc(mod, upd))
+
+
 def check(idx, run):
     run.explanation = __doc__
     check_params(idx, run)
     check_partition(idx, run)
     check_scope_merge(idx, run)
+    check_rename_guard(idx, run)
+    check_inlined_bounds(idx, run)
     run.assumptions = ["SymbolTable.merge renames correctly (C16)",
                        "nothing is compiled"]
